@@ -92,6 +92,22 @@ WrongLenCalls ==
                 res == DeserByLen(size, n)
             IN Rec("from_bytes", AlgField(ta[1], ta[2]), [bytes |-> inp], res, IF n = size THEN [reser |-> inp] ELSE EmptyF)
             : n \in 0..(2 * SizeOf(ta[1], ta[2]) + 2)} : ta \in TypesAlgs}
+\* `==` on public and private keys is equality of the values (C12: "deserializing those bytes yields an equal value"):
+\* a value equals itself and its clone, two independently derived keys differ, and so do private keys that differ in a
+\* single bit (positions that survive X25519 clamping and keep a NIST scalar in range)
+Bool(b) == Lit(<<IF b THEN 1 ELSE 0>>)
+EqRec(ty, kem, a, b) ==
+    Rec("key_eq", [ty |-> ty, kem |-> kem], [a |-> a, b |-> b], R("ok", ""),
+        [eq |-> Bool(a = b), sym |-> Bool(a = b), clone |-> Bool(TRUE)])
+EqCalls ==
+    UNION {{EqRec(ty, kem, ValueOf(ty, kem), ValueOf(ty, kem)),
+            EqRec(ty, kem, ValueOf(ty, kem), IF ty = "pk" THEN KP("B", kem).pk ELSE KP("B", kem).sk)}
+           : ty \in {"pk", "sk"}, kem \in KemSet}
+    \cup UNION {{EqRec("sk", kem, ValueOf("sk", kem), Flip(ValueOf("sk", kem), b))
+                 : b \in {8 * 15, 8 * 15 + 7, 8 * (Nsk(kem) - 1) + 1, 8 * (Nsk(kem) - 2) + 5}} : kem \in KemSet}
+    \cup (IF KEM_X25519 \in KemSet
+          THEN {EqRec("pk", KEM_X25519, ValueOf("pk", KEM_X25519), Flip(ValueOf("pk", KEM_X25519), b)) : b \in {0, 8 * 15 + 3, 8 * 31 + 6}}
+          ELSE {})
 \* X25519 accepts ANY 32 bytes as public, private or encapsulated key (canonical or not)
 X25519Raw ==
     IF KEM_X25519 \in KemSet
@@ -151,7 +167,7 @@ NistNext ==
         \/ \E rc \in SkRecipes(kem), i \in 1..NPer : last' = NistSkRec(kem, rc, i)
         \/ \E w \in NistSkWrongLenInputs(kem) : last' = NistSkWrongLenRec(kem, w)
 
-Calls == CASE Part = "sizes"   -> SizeCalls \cup RoundTripCalls \cup WriteExactCalls \cup WrongLenCalls \cup X25519Raw
+Calls == CASE Part = "sizes"   -> SizeCalls \cup RoundTripCalls \cup WriteExactCalls \cup WrongLenCalls \cup X25519Raw \cup EqCalls
            [] Part = "lengths" -> LengthCalls
            [] Part = "kdf"     -> KdfCalls
            [] Part = "psk"     -> PskCalls
